@@ -32,6 +32,11 @@ fn uf_step(eg: &EGraph<Main>) -> String {
 }
 
 pub fn exec_hist(ops: Vec<Op>) -> Vec<Case> {
+    exec_hist_l(ops, false)
+}
+
+/// `force_lazy`: examine nothing before the end of the history (see `lazy` below)
+pub fn exec_hist_l(ops: Vec<Op>, force_lazy: bool) -> Vec<Case> {
     let line_ops = enc_ops(&ops);
     let ops2 = ops.clone();
     let r = in_fresh_thread(move || {
@@ -53,6 +58,13 @@ pub fn exec_hist(ops: Vec<Op>) -> Vec<Case> {
         };
         let _ = slotted_egraphs::verif::take_events();
         let _ = slotted_egraphs::verif::take_uf_writes();
+        // a quarter of the histories run LAZILY: nothing is looked up between the operations (every look-up compresses
+        // union-find chains), everything remembered is examined once, at the end, oldest handle first
+        let lazy = force_lazy || enc_ops(&ops2).bytes().fold(0xcbf29ce484222325u64, |h, b| (h ^ b as u64).wrapping_mul(0x100000001b3)) >> 11 & 3 == 0;
+        let rev = enc_ops(&ops2).len() % 2 == 0;
+        if lazy {
+            tags.push("t:lazy".into());
+        }
         for (k, op) in ops2.iter().enumerate() {
             let before = eg.verif_measure();
             match op {
@@ -79,6 +91,9 @@ pub fn exec_hist(ops: Vec<Op>) -> Vec<Case> {
             let evs: Vec<&str> = slotted_egraphs::verif::take_events().into_iter().map(|(k, _)| k).collect();
             steps.push(format!("{}>{}:{}", meas(&before), meas(&after), evs.join(".")));
             ufsteps.push(uf_step(&eg));
+            if lazy && k + 1 != ops2.len() {
+                continue;
+            }
             // a rewrite iteration every now and then (which rules: a function of the position, so that the history replays)
             if k % 11 == 7 && eg.total_number_of_nodes() < 120 {
                 let names: [&[&str]; 3] = [&["add-comm", "mul-comm"], &["k-def", "add-assoc"], &["h-def", "sum-swap", "add-comm"]];
@@ -94,7 +109,7 @@ pub fn exec_hist(ops: Vec<Op>) -> Vec<Case> {
                 tags.push("t:rewrite-iteration".into());
             }
             // extraction from every handle ever returned, old ones included
-            if k % 9 == 8 || k + 1 == ops2.len() {
+            if !lazy && (k % 9 == 8 || k + 1 == ops2.len()) {
                 let res = guarded(|| {
                     let ex = Extractor::<Main, AstSize>::new(&eg, AstSize);
                     let mut bad: Vec<&'static str> = Vec::new();
@@ -129,12 +144,17 @@ pub fn exec_hist(ops: Vec<Op>) -> Vec<Case> {
             let n = tracked.len();
             let res = guarded(|| {
                 let mut bad: Vec<&'static str> = Vec::new();
-                for &(i, j) in &equal_pairs {
-                    if !eg.eq(&tracked[i], &tracked[j]) {
-                        bad.push("equality-lost");
+                // lazy histories: the handles are canonicalised FIRST, oldest first or newest first (which handle of a chain
+                // of merged classes is looked up first decides which entries get compressed on the way)
+                let order: Vec<usize> = if lazy && rev { (0..n).rev().collect() } else { (0..n).collect() };
+                if !lazy {
+                    for &(i, j) in &equal_pairs {
+                        if !eg.eq(&tracked[i], &tracked[j]) {
+                            bad.push("equality-lost");
+                        }
                     }
                 }
-                for i in 0..n {
+                for &i in &order {
                     let f = eg.find_applied_id(&tracked[i]);
                     if !eg.is_alive(f.id) {
                         bad.push("find-not-alive");
@@ -154,6 +174,13 @@ pub fn exec_hist(ops: Vec<Op>) -> Vec<Case> {
                     }
                     if !eg.eq(&tracked[i], &f) {
                         bad.push("handle-not-eq-its-find");
+                    }
+                }
+                if lazy {
+                    for &(i, j) in &equal_pairs {
+                        if !eg.eq(&tracked[i], &tracked[j]) {
+                            bad.push("equality-lost");
+                        }
                     }
                 }
                 (bad, (0..n).map(|i| eg.find_applied_id(&tracked[i]).m.len()).collect::<Vec<_>>())
@@ -288,10 +315,58 @@ fn gen_sym5(rng: &mut Rng) -> Vec<Op> {
     ops
 }
 
+/// a chain of two merges that nobody looks at: `h(f2(x,y))` and `h(g2(x,y))` become one class by congruence (`f2 = g2`), that
+/// class is merged into a bigger one, which then loses a slot; the handles of the two `h` terms are two and one hop away from
+/// the leader when they are finally looked up (lazy histories only examine at the end)
+fn gen_chain2(rng: &mut Rng) -> Vec<Op> {
+    let num = |s: &str| ATerm { v: 15, fields: vec![CField::Lit(s.into())], children: vec![] };
+    let w = |s: u32, t: ATerm| ATerm { v: 19, fields: vec![CField::Slot(s), CField::App], children: vec![t] };
+    let (x, y, z) = (4u32, 8u32, 12u32);
+    let mut ops: Vec<Op> = Vec::new();
+    let hf = un(13, leaf(7, &[x, y]));
+    let hg = un(13, leaf(11, &[x, y]));
+    if rng.chance(1, 2) {
+        ops.push(Op::Add(hf.clone()));
+        ops.push(Op::Add(hg.clone()));
+    } else {
+        ops.push(Op::Add(hg.clone()));
+        ops.push(Op::Add(hf.clone()));
+    }
+    ops.push(Op::Add(leaf(7, &[x, y]))); // 2
+    ops.push(Op::Add(leaf(11, &[x, y]))); // 3
+    let c = |last: u32| w(x, leaf(10, &[last]));
+    ops.push(Op::Add(c(y))); // 4
+    ops.push(Op::Add(c(z))); // 5
+    for j in 0..rng.range(2, 4) {
+        ops.push(Op::Add(bin(14, c(y), num(&format!("{}", 2 + j)))));
+    }
+    ops.push(Op::Union(2, 3)); // congruence: the two h classes
+    ops.push(if rng.chance(1, 2) { Op::Union(0, 4) } else { Op::Union(1, 4) }); // into the bigger class
+    ops.push(Op::Union(4, 5)); // which loses its second slot
+    ops
+}
+
 pub fn run(ctx: &mut Ctx) {
     let nops = ctx.param("ops", 40);
     for _ in 0..ctx.count {
         let mut rng = ctx.rng.fork();
+        if rng.chance(1, 6) {
+            // (with padding insertions so that about a quarter of these run lazily, in both examination orders)
+            let mut ops = gen_chain2(&mut rng);
+            for j in 0..rng.below(4) {
+                ops.insert(0, Op::Add(ATerm { v: 15, fields: vec![CField::Lit(format!("{}", 70 + j))], children: vec![] }));
+                for o in ops.iter_mut() {
+                    if let Op::Union(a, b) = o {
+                        *a += 1;
+                        *b += 1;
+                    }
+                }
+            }
+            for c in exec_hist_l(ops, true) {
+                ctx.emit(c);
+            }
+            continue;
+        }
         if rng.chance(1, 8) {
             for c in exec_hist(gen_sym5(&mut rng)) {
                 ctx.emit(c);
